@@ -115,6 +115,10 @@ def run_pipeline(m, dt, T, typ, chunk=0):
     inc = strapdown.compute_increments_from_imu(imu, typ)
     integ = strapdown.Integrator(pva_at(m, 0.0))
     if chunk:
+        # named columns carry the meaning, not their position: shuffled layout plus an extra column
+        inc = inc[['dv_z', 'theta_x', 'dt', 'dv_x', 'theta_z', 'dv_y', 'theta_y']].copy()
+        inc['flags'] = 0.0
+    if chunk:
         # the way the filters drive the integrator: consecutive integrate calls (C02 decides
         # that this is bit-identical to one call; here it only widens the driver)
         for a in range(0, len(inc), chunk):
